@@ -9,7 +9,7 @@ use std::time::Duration;
 use rt::alloc::{self, track, Block};
 use rt::case::{pick, ByteCase};
 use rt::run::{CaseReport, Engine};
-use rt::tok::{self, Payload, State, Tok1, Tok16, Tok4, Tok8, Tok8b, TokZ};
+use rt::tok::{self, Payload, State, Tok1, Tok16, Tok32, Tok4, Tok8, Tok8b, TokZ};
 use rt::{child, viol};
 use triomphe::{Arc, ArcUnion, HeaderSlice, HeaderWithLength, OffsetArc, ThinArc, UniqueArc};
 
@@ -606,6 +606,9 @@ pub fn ctor_engines() -> Vec<(Box<dyn Engine>, u64)> {
         (Box::new(CtorEngine::<Tok4, Tok4>::new()), 2),
         (Box::new(CtorEngine::<Tok8b, TokZ<1>>::new()), 1),
         (Box::new(CopyCtorEngine), 3),
+        // padding between header and slice in the FAT layout (header size 16, element alignment 32): the four
+        // combinations above have it only behind HeaderWithLength
+        (Box::new(CtorEngine::<Tok1, Tok32>::new()), 2),
     ]
 }
 
